@@ -745,6 +745,7 @@ func c07Run(r *Run) {
 
 type c07RejState struct {
 	failed map[string]token.Pos // value expression (as text) whose declared-type test answered false on this path
+	passed map[string]bool      // value expressions whose declared-type test answered true on every path here
 }
 
 // c07Reject: in every function of package node that calls Types.Is(v), the false outcome leads to a
@@ -809,9 +810,12 @@ func c07Reject(r *Run, npkg *packages.Package) {
 		seenTest := map[token.Pos]bool{}
 		h := &Hooks{Info: info}
 		h.Copy = func(s State) State {
-			n := &c07RejState{failed: map[string]token.Pos{}}
+			n := &c07RejState{failed: map[string]token.Pos{}, passed: map[string]bool{}}
 			for k, v := range s.(*c07RejState).failed {
 				n.failed[k] = v
+			}
+			for k := range s.(*c07RejState).passed {
+				n.passed[k] = true
 			}
 			return n
 		}
@@ -822,15 +826,25 @@ func c07Reject(r *Run, npkg *packages.Package) {
 					n.failed[k] = v
 				}
 			}
+			for k := range n.passed {
+				if !b.(*c07RejState).passed[k] {
+					delete(n.passed, k)
+				}
+			}
 			return n
 		}
 		h.Equal = func(a, b State) bool {
 			x, y := a.(*c07RejState), b.(*c07RejState)
-			if len(x.failed) != len(y.failed) {
+			if len(x.failed) != len(y.failed) || len(x.passed) != len(y.passed) {
 				return false
 			}
 			for k := range x.failed {
 				if _, ok := y.failed[k]; !ok {
+					return false
+				}
+			}
+			for k := range x.passed {
+				if !y.passed[k] {
 					return false
 				}
 			}
@@ -845,8 +859,10 @@ func c07Reject(r *Run, npkg *packages.Package) {
 				}
 				if truth {
 					delete(s.failed, v)
+					s.passed[v] = true
 				} else {
 					s.failed[v] = e.Pos()
+					delete(s.passed, v)
 				}
 			}
 			return s
@@ -880,10 +896,14 @@ func c07Reject(r *Run, npkg *packages.Package) {
 				return
 			}
 			if exprStr(rs.Results[nres-1]) == "nil" {
+				// a converted value that itself passed the declared type's test is what crosses the boundary
+				if nres >= 2 && s.passed[exprStr(rs.Results[0])] {
+					return
+				}
 				flag(s, rs.Pos(), "returns successfully")
 			}
 		}
-		WalkFunc(h, fd.Body, &c07RejState{failed: map[string]token.Pos{}})
+		WalkFunc(h, fd.Body, &c07RejState{failed: map[string]token.Pos{}, passed: map[string]bool{}})
 		sort.SliceStable(reps, func(i, j int) bool { return reps[i].pos < reps[j].pos })
 		for _, x := range reps {
 			if x.ok {
